@@ -31,5 +31,58 @@ GROUP = {
         U("anchor:Ledger::postings filters on the posting's account", F, [r"impl<'ctx> Ledger<'ctx>", r"pub fn postings<'a>"], no_canary=True,
           slice=r"(\.flat_map\(\|txn\| &\*txn\.postings\)\s*\.filter\(\|x\| af\.is_match\(&x\.account\)\)\s*\.collect\(\))", slice_count=1,
           slice_template="/* anchor: {EXPR} */\n"),
+        # ---- AccountFilter::new, whole function: the set of accounts a register argument selects
+        ("raw", """
+#[verifier::external_body]
+pub struct ReportContext { _p: usize }
+impl ReportContext {
+    /// the accounts the context knows under their canonical names
+    pub uninterp spec fn known_accounts(&self) -> Set<Account>;
+}
+/// ASSUMED (iterator over the intern store): `ctx.all_accounts_unsorted()` yields every known (canonical) account exactly once, in some order
+#[verifier::external_body]
+pub fn all_accounts_unsorted_listing(ctx: &ReportContext) -> (r: Vec<Account>)
+    ensures r@.no_duplicates(), forall|a: Account| r@.contains(a) <==> ctx.known_accounts().contains(a),
+{ unimplemented!() }
+pub open spec fn by_name(ctx: &ReportContext, f: Seq<char>) -> spec_fn(Account) -> bool { |x: Account| ctx.known_accounts().contains(x) && x.name() == f }
+"""),
+        U("AccountFilter::new", F, [r"impl<'ctx> AccountFilter<'ctx>", r"fn new\b"], fn="new", wrap=("impl AccountFilter {", "}"),
+          rewrites=[RET(),
+                    ("R35b-filter-collect-set", "re:let targets: HashSet<_> = ctx\\s*\\.all_accounts_unsorted\\(\\)\\s*\\.filter\\(\\|x\\| ([^;]*?)\\)\\s*\\.collect\\(\\);",
+                     "let all__ = all_accounts_unsorted_listing(ctx); let mut targets: HashSet<Account> = HashSet::new();\n        for i__ in 0..all__.len() { let x = &all__[i__]; if \\1 { targets.insert(*x); } }", 1),
+                    ("R24-set-is-empty", "if targets.is_empty() {", "if targets.len() == 0 {", 1)],
+          contract="""
+        ensures
+            // C04: no argument = every posting is listed
+            filter is None ==> r == Some(AccountFilter::Any),   // @AccountFilter.new.no_argument_selects_everything
+            // an argument selects exactly the known accounts whose name EQUALS it; none = nothing is listed
+            filter matches Some(f) ==> (match r {
+                Some(AccountFilter::Set(t)) => forall|x: Account| t@.contains(x) == #[trigger] by_name(ctx, f@)(x),
+                Some(AccountFilter::Any) => false,
+                None => forall|x: Account| !#[trigger] by_name(ctx, f@)(x) }),   // @AccountFilter.new.selects_the_known_accounts_of_exactly_that_name
+""",
+          loops={0: """
+            invariant
+                targets@.finite(),
+                forall|x: Account| targets@.contains(x) == (exists|k: int| 0 <= k < i__ && all__@[k] == x && x.name() == filter@),
+"""},
+          after_loop={0: """        proof {
+            assert forall|x: Account| targets@.contains(x) == #[trigger] by_name(ctx, filter@)(x) by {
+                if by_name(ctx, filter@)(x) {
+                    assert(all__@.contains(x));
+                    let k = choose|k: int| 0 <= k < all__@.len() && all__@[k] == x;
+                    assert(0 <= k < all__@.len() && all__@[k] == x && x.name() == filter@);
+                }
+                if targets@.contains(x) {
+                    let k = choose|k: int| 0 <= k < all__@.len() && all__@[k] == x && x.name() == filter@;
+                    assert(all__@.contains(all__@[k]));
+                }
+            }
+            if targets@.len() == 0 {
+                assert forall|x: Account| !#[trigger] by_name(ctx, filter@)(x) by {
+                    if targets@.contains(x) { assert(targets@.len() > 0) by { broadcast use vstd::set_lib::group_set_lib_default; targets@.lemma_len0_is_empty(); } }
+                }
+            }
+        }"""}),
     ],
 }
